@@ -78,7 +78,7 @@ def main():
         with open(os.path.join(corpus, f"seed{k}"), "wb") as f:
             f.write(blob)
     dump()
-    argv = [sys.argv[0], f"-runs={runs}", f"-seed={seed % (2**31 - 1) + 1}", "-max_len=512", "-len_control=0", "-verbosity=0", "-print_final_stats=0", corpus]
+    argv = [sys.argv[0], f"-runs={runs}", f"-seed={seed % (2**31 - 1) + 1}", "-max_len=512", "-len_control=0", "-verbosity=0", "-print_final_stats=0", f"-artifact_prefix={corpus}/", "-report_slow_units=3600", corpus]
     atheris.Setup(argv, one.hypothesis.fuzz_one_input)
     atheris.Fuzz()
 
